@@ -17,6 +17,21 @@ TrimLoop(runes, i, visibleRunes, cols) ==
 Cut(text, cols) == SubSeq(text, 1, TrimLoop(text, 0, 0, cols))
 WriteLineNoWrap(text, autoTrim, cols) == IF ~autoTrim THEN Utf8(text) ELSE Utf8(Cut(text, cols))
 
+(* A design class the law must exclude (negative control of TermTrimSgr_MC): the scan  *)
+(* for the closing `m` gives up after `bound` runes ("a stray ESC must not swallow the  *)
+(* rest of the line") - the rest of a longer colour sequence is then counted as visible. *)
+RECURSIVE SkipToMB(_, _, _)
+SkipToMB(runes, i, end) ==
+  IF runes[i + 1] # 109 /\ i < Len(runes) - 1 /\ i < end THEN SkipToMB(runes, i + 1, end) ELSE i
+RECURSIVE TrimLoopB(_, _, _, _, _)
+TrimLoopB(runes, i, visibleRunes, cols, bound) ==
+  IF i < Len(runes) /\ visibleRunes < cols
+  THEN IF runes[i + 1] = ESC
+       THEN TrimLoopB(runes, SkipToMB(runes, i, i + bound) + 1, visibleRunes, cols, bound)
+       ELSE TrimLoopB(runes, i + 1, visibleRunes + 1, cols, bound)
+  ELSE i
+CutBounded(text, cols, bound) == SubSeq(text, 1, TrimLoopB(text, 0, 0, cols, bound))
+
 \* the trimming law for one text and width (the oracle's GoodCut applied to the transcription)
 TrimLawAt(text, w) == WellFormed(text) => GoodCut(text, Cut(text, w), w)
 =============================================================================
